@@ -6,6 +6,7 @@
 -/
 import CB.Props.C03
 import CB.Lemmas.GenBitsMul
+import CB.Lemmas.GenMulRows
 namespace CB.P03G
 open CB
 
@@ -30,6 +31,81 @@ theorem model_is_translated_source (a b c k : BitVec 64) :
     CB.mac a.toNat b.toNat c.toNat k.toNat = ((Gen.Prim.mac a b c k).1.toNat, (Gen.Prim.mac a b c k).2.toNat) ∧
     CB.mulWide a.toNat b.toNat = ((Gen.Prim.mul_wide a b).1.toNat, (Gen.Prim.mul_wide a b).2.toNat) :=
   ⟨GenBits.mac_bridge a b c k, GenBits.mulWide_bridge a b⟩
+
+/-! ## T03.G2 — the SOURCE of the multiplication rows: `schoolbook_multiplication` (src/uint/mul.rs) and
+`Limb::{wrapping_mul, saturating_mul, mul_wide}` (src/limb/mul.rs), regenerated on every run
+(tools/translate.py → CB/Gen/MulRows.lean)
+
+`Gen.MulRows.schoolbook_multiplication lhs rhs lo hi` is the Lean translation of what src/uint/mul.rs says NOW: a slice is
+the list of its limbs (`List (BitVec 64)`, `.len()` is `.length`); the function, which has two `&mut [Limb]` parameters and
+no return value, RETURNS the final `(lo, hi)`; the outer `while i < lhs.len()` and the inner `while j < rhs.len()` are two
+recursive auxiliary definitions (the inner one called from the outer one) that re-test their loop condition every round;
+`if k >= lhs.len() { hi[k - lhs.len()] .. } else { lo[k] .. }` is an `if … then … else …` updating both lists.  The
+source's guard `if lhs.len() != lo.len() || rhs.len() != hi.len() { panic!(..) }` is the precondition of the theorems.
+They hold for EVERY pair of limb counts; `GenChains.nats l` is `l.map BitVec.toNat`. -/
+
+/-- `Limb::wrapping_mul / saturating_mul / mul_wide` of the source are the model's word multiplications, on all words -/
+theorem src_limb_mul (a b : BitVec 64) :
+    Mul.limbWrappingMul a.toNat b.toNat = (Gen.MulRows.Limb.wrapping_mul a b).toNat ∧
+    Mul.limbSaturatingMul a.toNat b.toNat = (Gen.MulRows.Limb.saturating_mul a b).toNat ∧
+    CB.mulWide a.toNat b.toNat = ((Gen.MulRows.Limb.mul_wide a b).1.toNat, (Gen.MulRows.Limb.mul_wide a b).2.toNat) :=
+  ⟨GenMulRows.limbWrappingMul_bridge a b, GenMulRows.limbSaturatingMul_bridge a b, GenMulRows.limbMulWide_bridge a b⟩
+
+/-- the hand-written row model (`schoolRows` on the one buffer `lo ++ hi`, `schoolbookMul`, `uintMulLimbs` — what T03.2
+    and everything above it are proved about) IS the translated source, for every pair of limb counts: on ANY buffers of
+    the lengths the source insists on, and in particular on the zeroed buffers `uint_mul_limbs` / `mul_limbs` pass -/
+theorem mul_model_is_translated_source (a b lo hi : List (BitVec 64)) (hl : lo.length = a.length)
+    (hh : hi.length = b.length) :
+    Mul.schoolRows (GenChains.nats a) (GenChains.nats b) (GenChains.nats (lo ++ hi)) =
+      GenChains.nats ((Gen.MulRows.schoolbook_multiplication a b lo hi).1 ++
+        (Gen.MulRows.schoolbook_multiplication a b lo hi).2) ∧
+    Mul.schoolbookMul (GenChains.nats a) (GenChains.nats b) =
+      GenChains.nats ((Gen.MulRows.schoolbook_multiplication a b (List.replicate a.length 0#64) (List.replicate b.length 0#64)).1 ++
+        (Gen.MulRows.schoolbook_multiplication a b (List.replicate a.length 0#64) (List.replicate b.length 0#64)).2) ∧
+    Mul.uintMulLimbs (GenChains.nats a) (GenChains.nats b) =
+      (GenChains.nats (Gen.MulRows.schoolbook_multiplication a b (List.replicate a.length 0#64) (List.replicate b.length 0#64)).1,
+       GenChains.nats (Gen.MulRows.schoolbook_multiplication a b (List.replicate a.length 0#64) (List.replicate b.length 0#64)).2) :=
+  ⟨(GenMulRows.schoolRows_bridge a b lo hi hl hh).1, GenMulRows.schoolbookMul_bridge a b, GenMulRows.uintMulLimbs_bridge a b⟩
+
+/-- the translated `schoolbook_multiplication` keeps the slice lengths (`lo`: `lhs.len()` limbs, `hi`: `rhs.len()`) -/
+theorem src_schoolbook_mul_lengths (a b lo hi : List (BitVec 64)) (hl : lo.length = a.length) (hh : hi.length = b.length) :
+    (Gen.MulRows.schoolbook_multiplication a b lo hi).1.length = a.length ∧
+    (Gen.MulRows.schoolbook_multiplication a b lo hi).2.length = b.length :=
+  (GenMulRows.schoolRows_bridge a b lo hi hl hh).2
+
+/-- **T03.2 about the source**: the TRANSLATED `schoolbook_multiplication`, called as `uint_mul_limbs` and `mul_limbs` call
+    it (`lo` = `lhs.len()` zero limbs, `hi` = `rhs.len()` zero limbs), returns the exact product of ANY two limb lists, of
+    any (equal or different, also zero) limb counts: `val lo' + B^|a| · val hi' = val a · val b`, with `|lo'| = |a|`,
+    `|hi'| = |b|` — so `lo'` is the product mod `2^BITS` and `hi'` its quotient.  From `uint_mul_limbs_exact` + the bridge. -/
+theorem src_schoolbook_mul_exact (a b : List (BitVec 64)) :
+    val (GenChains.nats (Gen.MulRows.schoolbook_multiplication a b (List.replicate a.length 0#64) (List.replicate b.length 0#64)).1) +
+        B ^ a.length *
+          val (GenChains.nats (Gen.MulRows.schoolbook_multiplication a b (List.replicate a.length 0#64) (List.replicate b.length 0#64)).2) =
+      val (GenChains.nats a) * val (GenChains.nats b) ∧
+    (Gen.MulRows.schoolbook_multiplication a b (List.replicate a.length 0#64) (List.replicate b.length 0#64)).1.length = a.length ∧
+    (Gen.MulRows.schoolbook_multiplication a b (List.replicate a.length 0#64) (List.replicate b.length 0#64)).2.length = b.length := by
+  have h := P03.uint_mul_limbs_exact (GenChains.nats a) (GenChains.nats b) (GenChains.nats_WF a) (GenChains.nats_WF b)
+  rw [GenMulRows.uintMulLimbs_bridge] at h
+  obtain ⟨_, _, h3, h4, h5⟩ := h
+  simp only [GenChains.nats_length] at h3 h4 h5
+  exact ⟨h5, h3, h4⟩
+
+/-- the low and the high half separately: remainder and quotient of the product by `B^|a|` -/
+theorem src_schoolbook_mul_lo_hi (a b : List (BitVec 64)) :
+    val (GenChains.nats (Gen.MulRows.schoolbook_multiplication a b (List.replicate a.length 0#64) (List.replicate b.length 0#64)).1) =
+      (val (GenChains.nats a) * val (GenChains.nats b)) % B ^ a.length ∧
+    val (GenChains.nats (Gen.MulRows.schoolbook_multiplication a b (List.replicate a.length 0#64) (List.replicate b.length 0#64)).2) =
+      (val (GenChains.nats a) * val (GenChains.nats b)) / B ^ a.length := by
+  have h := P03.uint_mul_limbs_lo_hi (GenChains.nats a) (GenChains.nats b) (GenChains.nats_WF a) (GenChains.nats_WF b)
+  rw [GenMulRows.uintMulLimbs_bridge] at h
+  simp only [GenChains.nats_length] at h
+  exact ⟨h.1, h.2.1⟩
+
+/-! evaluated instances of the translated source (kernel evaluation of the generated definitions) -/
+example : Gen.MulRows.schoolbook_multiplication [~~~0#64, ~~~0#64] [~~~0#64] [0#64, 0#64] [0#64] =
+    ([1#64, ~~~0#64], [~~~0#64 - 1#64]) := by decide
+example : Gen.MulRows.schoolbook_multiplication [3#64] [5#64, 7#64] [0#64] [0#64, 0#64] = ([15#64], [21#64, 0#64]) := by decide
+example : Gen.MulRows.Limb.saturating_mul (~~~0#64) 2#64 = ~~~0#64 ∧ Gen.MulRows.Limb.saturating_mul 3#64 5#64 = 15#64 := by decide
 
 
 end CB.P03G
